@@ -207,6 +207,47 @@ Proof.
 Qed.
 Print Assumptions C09_native_passthrough.
 
+(* the contract of sorted_by_key read off in one statement: for a pure key function whose real
+   results are valid binary64 values the native returns a new table R that is a permutation of
+   the input, ascending under sort_key_cmp's order, and stable *)
+Theorem C09_sorted_by_key_contract :
+  forall P host keyfn cb s p tb,
+    nth_error (st_heap s) p = Some tb -> wf_table tb ->
+    pure_cb P host keyfn cb ->
+    (forall args, key_valid (cb args) = true) ->
+    let h := st_heap s in
+    let keyf := key_by_cb of_key cb in
+    exists s' R,
+      runs P host (TkNative n_sort [VTable p; keyfn]) s (ok [VTable (length h)] empty_env s') /\
+      st_heap s' = h ++ [R] /\
+      Permutation R tb /\
+      StronglySorted (fun e1 e2 => sort_lt h (keyf e2) (keyf e1) = false) R /\
+      (forall k, key_valid k = true ->
+         filter (fun e => equiv_key (sort_lt h) (keyf e) k) R =
+         filter (fun e => equiv_key (sort_lt h) (keyf e) k) tb).
+Proof. exact native_sorted_contract. Qed.
+Print Assumptions C09_sorted_by_key_contract.
+
+(* the contract of min_by_key / max_by_key for numeric keys: the row of the FIRST entry with the
+   smallest / largest key *)
+Theorem C09_min_max_by_key_contract :
+  forall P host name keyfn cb s p tb,
+    name = n_min \/ name = n_max ->
+    nth_error (st_heap s) p = Some tb -> tb <> [] ->
+    pure_cb P host keyfn cb ->
+    (forall args, num_key (cb args) = true) ->
+    let h := st_heap s in
+    let keyf := key_by_cb of_key cb in
+    let better := cmp_is h (if str_eqb name n_min then Lt else Gt) in
+    exists s' e l1 l2,
+      runs P host (TkNative name [VTable p; keyfn]) s (ok [VTable (length h)] empty_env s') /\
+      st_heap s' = h ++ [row_table (of_key (fst e)) (snd e)] /\
+      tb = l1 ++ e :: l2 /\
+      Forall (fun e' => better (keyf e) (keyf e') = true) l1 /\
+      Forall (fun e' => better (keyf e') (keyf e) = false) l2.
+Proof. exact native_minmax_contract. Qed.
+Print Assumptions C09_min_max_by_key_contract.
+
 (* the insertion sort of the reference semantics and the one of the specification (written the
    other way round) agree wherever the comparison is a strict weak order *)
 Theorem C09_sorts_agree :
